@@ -7,6 +7,7 @@ import formula as F
 import schema as S
 import common
 import facts
+from interp import known_fns
 from common import CERT_FN, CSR_FN, CRL_FN
 from interp import Interp
 
@@ -119,6 +120,16 @@ def same(ctx, rep):
         if fn in BOUNDARY:
             continue
         n += 1
+        if ca != cb and fn not in known_fns(a0.name):
+            # a helper introduced by a later change that differs between the back ends: acceptable exactly when it is
+            # reached only from boundary functions (the back-end specific code was moved, not spread)
+            import c10
+            Ga, _ = c10.call_graph(a0)
+            Gb, _ = c10.call_graph(b0)
+            owners = {c10.attributed_owner(a0, Ga, fn), c10.attributed_owner(b0, Gb, fn)}
+            if owners <= set(BOUNDARY):
+                rep.ob("C16.same", "K1=K2|" + fn + "|moved-boundary-code", True, "new helper differing between the back ends is reached only from the boundary function %s" % sorted(owners))
+                continue
         if ca != cb:
             rep.fail("C16.same", "K1=K2|" + fn, "the function's type-checked body differs between the ring and the aws-lc-rs build although it is not a back-end boundary function: the two back ends no longer run the same code here", sp=a.bodies[fn].get("sp"))
     rep.ob("C16.same", "K1=K2|bodies", True, "%d common functions compared" % n)
